@@ -2,6 +2,10 @@
   Model/Tk.lean — discopy/quantum/tk.py `to_tk` (lines 138-262) as a state machine over the
   layers of a circuit, transcribed from the code as it is (core Lean only).
 
+  Transcribes the file after the fix commits for F11, F26 (override measure removes its qubits)
+  and F28 (unit swap by one simultaneous renaming); line numbers are those of the file before
+  these commits (they move by at most four lines), except where a changed line is cited.
+
   State (tk.py:144): the tket circuit under construction is represented by
     nq, nb        number of qubit / bit units (`tk_circ.n_qubits`, `len(tk_circ.bits)`)
     cmds          the commands added so far, in insertion order; every `rename_units` is applied
@@ -167,7 +171,7 @@ def PS.set (ps : PS) (k v : Nat) : PS :=
 
 /-- `Circuit.rename_units` on the post-selection (tk.py:73-82) for a renaming of bit units given
     as (old `index[0]`, new `index[0]`) pairs in dict order.  The register *name* of a unit is
-    not looked at by the code, only `index[0]` — the `tmp` unit of `swap` has index 0. -/
+    not looked at by the code, only `index[0]`. -/
 def PS.rename (ps : PS) (ren : List (Nat × Nat)) : PS :=
   ((ren.filter (fun r => ps.has r.1)).map (fun r => (r.2, (ps.get r.1).getD 0))).foldl
     (fun p e => p.set e.1 e.2)
@@ -275,8 +279,8 @@ def prepareBits (st : St) (n lb : Nat) : Except Err St :=
   | .error e => .error e
   | .ok start => prepareBitsAt st n lb start
 
-/-- The `override_bits` branch of tk.py:181-186: `Measure(qubits[lq + j], bits[lb + j])`,
-    nothing else changes. -/
+/-- The loop of the `override_bits` branch of tk.py:181-186:
+    `Measure(qubits[lq + j], bits[lb + j])`. -/
 def overrideLoop (st : St) (lq lb : Nat) : List Nat → Except Err St
   | [] => .ok st
   | j :: js => match st.bits[lb + j]?, st.qubits[lq + j]? with
@@ -287,7 +291,7 @@ def overrideLoop (st : St) (lq lb : Nat) : List Nat → Except Err St
 def measureOne (st : St) (lq lb j : Nat) : Except Err St :=
   match st.qubits[lq + j]? with
   | none => .error .index
-  | some q => match st.pp.addWire st.bits.length with       -- offset = len(bits), tk.py:189
+  | some q => match st.pp.addWire (lb + j) with       -- offset = bit_offset + j (fix F11)
     | .error e => .error e
     | .ok pp' => .ok { st with nb := st.nb + 1
                                pp := pp'
@@ -320,9 +324,12 @@ def removeRegs (regs : List Nat) (off n : Nat) : List Nat := regs.take off ++ re
 
 def dropQubits (st : St) (lq n : Nat) : St := { st with qubits := removeRegs st.qubits lq n }
 
-/-- tk.py:180-200. -/
+/-- tk.py:180-200; with fix F26 the `override_bits` branch removes the qubits of a destructive
+    measurement before it returns. -/
 def measureQubits (st : St) (n : Nat) (destructive override : Bool) (lq lb : Nat) : Except Err St :=
-  if override then overrideLoop st lq lb (List.range n)
+  if override then match overrideLoop st lq lb (List.range n) with
+    | .error e => .error e
+    | .ok st' => .ok (if destructive then dropQubits st' lq n else st')
   else match measureLoop st lq lb (List.range n) with
     | .error e => .error e
     | .ok st' => .ok (if destructive then dropQubits st' lq n else st')
@@ -332,8 +339,8 @@ def braQubits (st : St) (bs : List Nat) (lq : Nat) : Except Err St :=
   | .error e => .error e
   | .ok st' => .ok (dropQubits st' lq bs.length)
 
-/-- Transposition of two register names (net effect of the three `rename_units` of tk.py:202-207
-    on the commands). -/
+/-- Transposition of two register names: `rename_units({old: new, new: old})` on the commands
+    (fix F28; before it the swap went through three renamings and a unit `tmp[0]`). -/
 def transp (a b r : Nat) : Nat := if r = a then b else if r = b then a else r
 
 /-- tk.py:237-239. -/
@@ -343,14 +350,14 @@ def swapQubits (st : St) (lq : Nat) : Except Err St :=
   | _, _ => .error .index
 
 /-- tk.py:240-247.  With a post-processing that has boxes the swap is appended to it; otherwise
-    the two bit units are renamed through `tmp[0]`, whose `index[0]` is 0 (tk.py:203-207 with
-    the post-selection side of `rename_units`, tk.py:73-82, applied three times). -/
+    the two bit units are exchanged by one simultaneous renaming, applied to the commands and,
+    through `Circuit.rename_units` (tk.py:73-82), to the post-selection. -/
 def swapBits (st : St) (lb : Nat) : Except Err St :=
   if st.pp.layers.isEmpty then
     match st.bits[lb]?, st.bits[lb + 1]? with
     | some a, some b =>
       .ok { st with cmds := st.cmds.map (Cmd.map id (transp a b))
-                    ps := ((st.ps.rename [(a, 0)]).rename [(b, a)]).rename [(0, b)] }
+                    ps := st.ps.rename [(a, b), (b, a)] }
     | _, _ => .error .index
   else match st.pp.post .swap lb with
     | .error e => .error e
